@@ -23,6 +23,37 @@ class EvalError(Exception):
 
 # ------------------------------------------------------------------ pymbolic
 
+# Order in which the keyword arguments of a call are written down (and, in the reference, evaluated):
+# by name, or by name reversed.  A property of the method being handled (method["kw_reverse"]), set by
+# whoever starts handling a method (build_phase/build_dag/RefMachine).
+KW_REVERSE = False
+
+
+def set_kw_order(obj):
+    global KW_REVERSE
+    KW_REVERSE = bool(obj.get("kw_reverse", False)) if isinstance(obj, dict) else bool(obj)
+
+
+def kw_names(kw):
+    return sorted(kw, reverse=KW_REVERSE)
+
+
+def special_constant(key):
+    """Constants that JSON cannot carry: non-finite floats, numpy scalars, big integers."""
+    import numpy as np
+    table = {
+        "inf": float("inf"), "-inf": float("-inf"), "nan": float("nan"),
+        "np64:inf": np.float64("inf"), "np64:-inf": np.float64("-inf"), "np64:nan": np.float64("nan"),
+        "np64:1.5": np.float64(1.5), "np64:-2.5": np.float64(-2.5), "np32:0.5": np.float32(0.5),
+        "np32:-0.25": np.float32(-0.25), "npi64:-3": np.int64(-3), "npi64:4": np.int64(4), "npi32:7": np.int32(7),
+        "-0.0": -0.0, "1e308": 1e308, "-1e308": -1e308, "5e-324": 5e-324, "1e-300": 1e-300, "-1e22": -1e22,
+        "1e22": 1e22, "0.1": 0.1, "-0.1": -0.1, "1/3": 1.0 / 3.0, "2**70": 2 ** 70, "-2**70": -2 ** 70,
+        "123456789012345678": 123456789012345678, "npc:1-2j": np.complex128(1 - 2j), "c:-1.5+0.5j": complex(-1.5, 0.5),
+        "c:0-1j": complex(0, -1), "npc64:0.5+2j": np.complex64(0.5 + 2j),
+    }
+    return table[key]
+
+
 def to_pymbolic(t):
     import pymbolic.primitives as p
     from immutabledict import immutabledict
@@ -32,6 +63,8 @@ def to_pymbolic(t):
     if k == "const":
         if isinstance(t[1], list) and t[1] and t[1][0] == "complex":
             return complex(t[1][1], t[1][2])
+        if isinstance(t[1], list) and t[1] and t[1][0] == "special":
+            return special_constant(t[1][1])
         return t[1]
     if k == "sum":
         return p.Sum(tuple(to_pymbolic(c) for c in t[1:]))
@@ -65,7 +98,7 @@ def to_pymbolic(t):
         kw = t[3] if len(t) > 3 else {}
         if kw:
             return p.CallWithKwargs(p.Variable(t[1]), args,
-                                    immutabledict({n: to_pymbolic(v) for n, v in kw.items()}))
+                                    immutabledict({n: to_pymbolic(kw[n]) for n in kw_names(kw)}))
         return p.Call(p.Variable(t[1]), args)
     raise ValueError("bad tree %r" % (t,))
 
@@ -358,6 +391,6 @@ class Evaluator:
         if k == "call":
             args = [self.rec(c) for c in t[2]]
             kw = t[3] if len(t) > 3 else {}
-            kwv = {n: self.rec(kw[n]) for n in sorted(kw)}
+            kwv = {n: self.rec(kw[n]) for n in kw_names(kw)}
             return self.call(t[1], args, kwv)
         raise EvalError("bad tree %r" % (t,))
